@@ -100,31 +100,51 @@ prop("C47",
 
 prop("C39",
      theorems=["NeoFS.Precision.roundtrip_le", "NeoFS.Precision.exact_when_finer", "NeoFS.Precision.C39_counterexample",
-               "NeoFS.Precision.no_wrap_partial", "NeoFS.Precision.no_wrap_upto_11"],
+               "NeoFS.Precision.no_wrap_partial", "NeoFS.Precision.no_wrap_upto_11",
+               "NeoFS.Precision.roundtrip_le_int64", "NeoFS.Precision.roundtrip_more_iff", "NeoFS.Precision.C39_roundtrip_counterexample",
+               "NeoFS.Precision.no_wrap_partial_neg", "NeoFS.Precision.concurrent_eq_sequential", "NeoFS.Precision.concurrent_complete"],
      engines=[dict(name="arith", quick=1, thorough=1)],
-     claim="Lean proves for every amount and precision that main-net -> balance -> main-net never yields more than the original and is exact for "
-           "precision >= 8, and pins the exact overflow boundary: no wrap whenever amount x 10^|p-8| < 2^63 (all amounts < 2^53 for p in 8..11). "
+     claim="Lean proves for every integer amount OF EITHER SIGN and every precision that main-net -> balance -> main-net never yields more than the "
+           "original (big.Int.Div is Euclidean: it rounds a negative non-multiple down) and is exact for precision >= 8; at the int64 level the same "
+           "holds whenever neither conversion wraps, and for precision < 8 the amounts that come back LARGER are pinned exactly: those whose multiple "
+           "of the factor below them lies below MinInt64 (fewer than 10^(8-p) amounts next to MinInt64; theorem roundtrip_more_iff, known finding). "
+           "It pins the exact overflow boundary: no wrap whenever |amount| x 10^|p-8| fits int64 (all amounts < 2^53 for p in 8..11). "
            "The property's full no-overflow claim is FALSE for the current code (theorem C39_counterexample: p=12, n=2^53-1 wraps negative) and is "
-           "recorded as a known finding; the model is tied to precision.Fixed8Converter by a differential run over boundary and random amounts.",
+           "recorded as a known finding. A conversion is a function of (precision, direction, amount) only, so conversions overlapping in time through "
+           "copies of one converter give the sequential results in every order (concurrent_eq_sequential). The model is tied to "
+           "precision.Fixed8Converter by a differential run over boundary and random amounts of both signs and by concurrent conversions through "
+           "copies of one converter compared with the sequential results.",
      note="Trusted: Lean kernel; hand model Model/Precision.lean (big.Int Div = Euclidean division, Int64() = low 64 bits) tied by correspondence. "
-          "Known finding C39-mul-overflow (not repaired: needs an API change).",
-     rule="precisions 0..18 x (boundary amounts 10^k+-1, 2^63/10^k+-1, 2^53/10^k, 2^31.., plus seeded random magnitudes) x both directions; "
-          "non-trivial = product fits int64, n > 1, p != 8; distinct by op",
-     assumptions=["amounts are non-negative (the converter is only used for deposits/withdrawals)"])
+          "Known findings C39-mul-overflow and C39-roundtrip-wrap-at-min-int64 (not repaired: need an API change). The concurrent op explores "
+          "schedules by many trials (2-6 goroutines released together), it does not enumerate them.",
+     rule="precisions 0..18 x (boundary amounts of both signs: 0, +-1, +-(10^k, 10^k+-1, 1.5*10^k), +-(2^63/10^k+-1), +-2^53/10^k, MinInt64 and the "
+          "multiples of 10^k next to it, MaxInt64, plus seeded random magnitudes of both signs) x both directions; 40 concurrent ops (2-6 goroutines x "
+          "2000 rounds x 4-12 amounts through copies of one converter); non-trivial = product fits int64, |n| > 1, p != 8, or a concurrent op; distinct by op",
+     assumptions=[])
 
 prop("C40",
      theorems=["NeoFS.Timers.nothing_after_done", "NeoFS.Timers.epoch_fires_once", "NeoFS.Timers.epoch_fires_once_after_reset",
-               "NeoFS.Timers.delta_fires_once_aux", "NeoFS.Timers.delta_fires_once"],
+               "NeoFS.Timers.delta_fires_once_aux", "NeoFS.Timers.delta_fires_once",
+               "NeoFS.Timers.history_epoch_once", "NeoFS.Timers.history_delta_once", "NeoFS.Timers.runEvs_eq_lin",
+               "NeoFS.Timers.overlap_epoch_once", "NeoFS.Timers.overlap_delta_once", "NeoFS.Timers.firstOnly_count",
+               "NeoFS.Timers.overlapped_reset_rearms", "NeoFS.Timers.overlapped_update_no_double_fire"],
      engines=[dict(name="timers", quick=1, thorough=1)],
      claim="Lean proves, for every prior timer state, every reset and every (possibly non-monotonic) sequence of block times until the next reset: the "
            "new-epoch handlers fire exactly at the first block time reaching lastTick+dur and never again; every sub-epoch handler with mul<=div fires "
            "exactly at the first block time reaching lastTick+dur*mul/div and never again (uint64 overflow of lastTick+dur / dur*mul excluded by explicit "
-           "hypotheses; the mul>div case, which the early return suppresses, is stated as the hypothesis and executed on the real code). Tied to "
-           "pkg/timers.EpochTimers by all short histories plus seeded long ones.",
+           "hypotheses; the mul>div case, which the early return suppresses, is stated as the hypothesis and executed on the real code). The same is "
+           "proved inside whole histories, including histories in which a Reset or a second UpdateTime is issued WHILE a handler of a running "
+           "UpdateTime executes: the mutex is held over the handlers, the overlapped call is linearised right after the running UpdateTime "
+           "(runEvs_eq_lin), a reset issued from inside a handler is never lost and an overlapped UpdateTime never fires a second time. Tied to "
+           "pkg/timers.EpochTimers by all short histories plus seeded long ones, and by histories whose REAL handler callbacks start the overlapped "
+           "call in another goroutine and wait a bounded time for it.",
      note="Trusted: Lean kernel; hand model Model/Timers.lean (tied by correspondence); the mutex makes UpdateTime/Reset atomic steps, so a history is a "
-          "sequence of them.",
+          "sequence of them - this is exercised, not assumed: the overlapped call is really issued while the handler runs and must behave as if "
+          "issued after the running UpdateTime returned.",
      rule="all histories of length <= 3 (quick) / <= 5 (thorough) over 6 resets x 9 block times with 5 fractions (1/2, 1/1, 3/2, 0/1, 2/3), plus seeded "
-          "histories of 4..17 events incl. values near 2^64; non-trivial = more than 3 events; distinct by history")
+          "histories of 4..17 events incl. values near 2^64, plus 70 deadline histories (7 handler sites x 5 overlapped calls x 2 block times) and seeded "
+          "histories of 4..13 events with 40% overlapped calls (Reset / UpdateTime issued from inside handler e0,e1,d0..d4); non-trivial = more than 3 "
+          "events; distinct by history")
 
 prop("C36",
      theorems=["NeoFS.Gov.rotation", "NeoFS.Gov.rotation_differs", "NeoFS.Gov.innerRing_update"],
